@@ -237,7 +237,24 @@ fn decode(t: &mut Tape) -> Case {
         };
         Case::Scale { ty, scale: amt::key(s) }
     } else {
-        let sym = match t.below(4) {
+        let sym = match t.below(5) {
+            4 => {
+                // another attribute of a unit of the type used as the query:
+                // its name, variant, constant, the name in lower case, the
+                // SI prefix's abbreviation or name
+                let u = &c.models[ty].row.units[t.below(dt.n_units)];
+                match t.below(6) {
+                    0 => u.name.to_string(),
+                    1 => u.variant.to_string(),
+                    2 => u.konst.to_string(),
+                    3 => u.name.to_lowercase(),
+                    4 => u.name.replace(' ', "_"),
+                    _ => match u.prefix {
+                        Some(p) => p.to_string(),
+                        None => u.name.to_uppercase(),
+                    },
+                }
+            }
             0 | 1 => {
                 let i = t.below(dt.n_units);
                 let s = c.models[ty].row.units[i].symbol;
